@@ -287,6 +287,17 @@ func (e *Engine) sqlStatementsFrom(top *ssa.Function, virtual []ssa.Value, depth
 						name = cc.Method.Name()
 					}
 					st.Exec = append(st.Exec, "passed:"+name)
+					// a connection/transaction handle handed over together with the builder is its runner
+					for _, other := range args {
+						if other == a {
+							continue
+						}
+						ot := unwrap(other).Type()
+						switch typeBaseName(ot) {
+						case "Tx", "PgxExec", "PgxQuery", "DB", "Pool":
+							st.RunWith = append(st.RunWith, typeBaseName(ot)+":"+describe_(other))
+						}
+					}
 					// summarise what the helper adds to the statement
 					if f != nil && f.Blocks != nil && e.inModule(f) && depth < 2 {
 						for pi, p := range f.Params {
